@@ -95,6 +95,28 @@ package dagcbor
 //@   assigns recv.pos
 //@   ensures err == nil ==> recv.pos == old(recv.pos) + 1
 
+// The public entry points: every encoding is produced by marshal (the token path proved below) over a
+// fresh token, with the options given; the registered codec asks for links and the canonical key order.
+// (A node that brings its own EncodeDagCbor fast path is outside this check.)
+//@ func Marshal(n, sink, options) (err)
+//@   requires n != nil && sink != nil
+//@   requires options.AllowLinks && options.MapSortMode == codec.MapSortMode_RFC7049
+//@   requires Enc(n.val, sink.pos)
+//@   assigns sink.pos
+//@   before marshal assert[C02] carg0 == n && carg2 == sink && carg3 == options
+//@   ensures[C02] err == nil ==> sink.pos == old(sink.pos) + tsize(n.val)
+//@ func (EncodeOptions).Encode(n, w) (err)
+//@   requires n != nil && w != nil && cfg.AllowLinks && cfg.MapSortMode == codec.MapSortMode_RFC7049
+//   (the canonical stream is positioned where the fresh encoder stands: a definition, stated as an assumption)
+//@   after NewEncoder assume Enc(n.val, iface(result0, "shared.TokenSink").pos)
+//@   before Marshal assert[C02] carg0 == n && carg2 == cfg
+//@   after Marshal let marshalled = true
+//@   after EncodeDagCbor let marshalled = true
+//@   ensures[C02] err == nil ==> defined(marshalled)
+//@ func Encode(n, w) (err)
+//@   requires n != nil && w != nil
+//@   before Encode assert[C02] carg0.AllowLinks && carg0.MapSortMode == codec.MapSortMode_RFC7049 && carg1 == n && carg2 == w
+
 //@ func marshal(n, tk, sink, options) (err)
 //@   requires n != nil && tk != nil && sink != nil && !tk.Tagged
 //@   requires options.AllowLinks && options.MapSortMode == codec.MapSortMode_RFC7049
